@@ -965,4 +965,27 @@ def r8(cx):
 
 
 # --- explanation addendum (generated catalogue in DESIGN.md reads RS.explanation)
-RS.explanation += ' Added later: ${x=w}, $((x=..)), for, read, getopts and cd assign with Scope::Global (R7); get_or_new never takes over an entry from below the target context (R8).'
+@RS.rule('C16.R9', 'K-GUARD', 'an assignment that fails leaves the variable as it was: the allexport option marks the variable for export '
+         'BEFORE the caller assigns to it, so it must not touch a read-only variable (whose assignment is going to fail)')
+def r9(cx):
+    F = cx.F
+    fn = 'yash_env::Env::<S>::get_or_create_variable'
+    body = F.inlined(fn)
+    cx.fn(fn)
+    du = Q.DefUse(body)
+    sites = Q.find_calls(body, [re.compile(r"VariableRefMut(::<'_>)?::export$")])
+    gets = Q.find_calls(body, ['yash_env::variable::VariableSet::get_or_new'])
+    cx.require(gets, 'get_or_create_variable no longer obtains the variable through VariableSet::get_or_new')
+    if not sites:
+        cx.violation(fn, 'allexport-not-applied', 'get_or_create_variable never exports the variable: the allexport option has no effect')
+    for blk, t in sites:
+        ok = _not_read_only_edge(F, body, du, blk)
+        allexp = any(org['k'] == 'call' and lab == ('bool', True) for org, lab, e in Q.implied_conditions(F, body, du, blk))
+        cx.site('get_or_create_variable: export at %s: on the not-read-only edge: %s; under an option test: %s' % (body.loc(t), ok, allexp))
+        if not ok:
+            cx.violation(fn, 'export-before-failing-assignment', 'with allexport on, the variable is exported before the caller assigns to it, '
+                         'also when it is read-only: `readonly ro=1; set -a; command readonly ro=2` fails to assign but leaves ro exported '
+                         '(a failed assignment changed the variable)', loc=body.loc(t))
+
+
+RS.explanation += ' Added later: ${x=w}, $((x=..)), for, read, getopts and cd assign with Scope::Global (R7); get_or_new never takes over an entry from below the target context (R8). With allexport, a read-only variable (whose assignment will fail) is not exported (R9).'
